@@ -21,6 +21,7 @@ import (
 	"os"
 	"strconv"
 	"strings"
+	"sync"
 	"time"
 
 	"shanhu.io/g/aries"
@@ -433,7 +434,12 @@ func buildRouters(c *Case, hit **leafHit) ([]*aries.Router, [][]int) {
 		}
 		e := op.E
 		return func(cc *aries.C) error {
-			*hit = &leafHit{tag: h, rel: cc.Rel()}
+			lh := &leafHit{tag: h, rel: cc.Rel()}
+			if hit != nil {
+				*hit = lh
+			} else {
+				cc.Data["leaf"] = lh // concurrent mode: nothing shared
+			}
 			return leafError(e)
 		}
 	}
@@ -747,6 +753,123 @@ func runEntry(c *Case) {
 		}
 		o.Entry = append(o.Entry, eo)
 	}
+}
+
+// concCase builds the structure of a case once (registration finished), then
+// serves all its requests from several goroutines at once and compares with
+// the sequential answers. Built with -race, any write to the routing
+// structures while serving is reported by the race detector.
+func concCase(c *Case) bool {
+	const workers = 8
+	// the reference answers come from a separate, identically built structure,
+	// so that nothing is warmed up before the concurrent phase
+	refServe, nq := concBuild(c)
+	serve, _ := concBuild(c)
+	if serve == nil {
+		return true
+	}
+	want := make([]string, nq)
+	for q := 0; q < nq; q++ {
+		want[q] = refServe(q)
+	}
+	same := make([]bool, workers)
+	var wg sync.WaitGroup
+	for w := 0; w < workers; w++ {
+		wg.Add(1)
+		go func(w int) {
+			defer wg.Done()
+			ok := true
+			for rep := 0; rep < 3; rep++ {
+				for q := 0; q < nq; q++ {
+					if serve((q+w)%nq) != want[(q+w)%nq] {
+						ok = false
+					}
+				}
+			}
+			same[w] = ok
+		}(w)
+	}
+	wg.Wait()
+	for _, ok := range same {
+		if !ok {
+			return false
+		}
+	}
+	return true
+}
+
+func concBuild(c *Case) (serve func(q int) string, nq int) {
+	switch c.Kind {
+	case "mux":
+		m := aries.NewMux()
+		for _, op := range c.Ops {
+			tag := op.F
+			f := aries.Func(func(cc *aries.C) error { cc.Data["tag"] = tag; return nil })
+			guard(func() {
+				switch op.Op {
+				case "prefix":
+					m.Prefix(op.S, f)
+				case "exact":
+					m.Exact(op.S, f)
+				case "dir":
+					m.Dir(op.S, f)
+				}
+			})
+		}
+		nq = len(c.paths)
+		serve = func(q int) string {
+			cc := &aries.C{Path: c.paths[q], Data: make(map[string]interface{})}
+			if err := m.Serve(cc); err != nil {
+				return errName(err)
+			}
+			return strconv.Itoa(cc.Data["tag"].(int))
+		}
+	case "seg":
+		t := trie.New()
+		for _, a := range c.SAdds {
+			guard(func() { t.Add(append([]string{}, a.R...), a.V) })
+		}
+		nq = len(c.sq)
+		serve = func(q int) string {
+			m, v := t.Find(append([]string{}, c.sq[q]...))
+			return strconv.Itoa(len(m)) + ":" + v + ":" + t.FindExact(append([]string{}, c.sq[q]...))
+		}
+	case "router":
+		routers, _ := buildRouters(c, nil)
+		nq = len(c.Reqs)
+		serve = func(q int) string {
+			req := &http.Request{Method: c.Reqs[q].Method, URL: &url.URL{Path: c.Reqs[q].Path}, Host: "h", Header: make(http.Header)}
+			var err error
+			var cc *aries.C
+			if p := guard(func() {
+				cc = aries.NewContext(httptest.NewRecorder(), req)
+				err = routers[0].Serve(cc)
+			}); p != "" {
+				return "panic"
+			}
+			out := errName(err)
+			if lh, ok := cc.Data["leaf"].(*leafHit); ok {
+				out += ":" + strconv.Itoa(lh.tag) + ":" + lh.rel
+			}
+			return out
+		}
+	case "host":
+		m := aries.NewHostMux()
+		for _, s := range c.HSets {
+			tag := s.F
+			m.Set(s.H, aries.Func(func(cc *aries.C) error { cc.Data["tag"] = tag; return nil }))
+		}
+		nq = len(c.HReqs)
+		serve = func(q int) string {
+			req := &http.Request{Method: "GET", URL: &url.URL{Path: "/"}, Host: c.HReqs[q], Header: make(http.Header)}
+			cc := aries.NewContext(httptest.NewRecorder(), req)
+			if err := m.Serve(cc); err != nil {
+				return errName(err)
+			}
+			return strconv.Itoa(cc.Data["tag"].(int))
+		}
+	}
+	return serve, nq
 }
 
 func runCase(c *Case) {
@@ -1233,8 +1356,8 @@ func genCases(seed uint64, tier string) []Case {
 
 	// --- round 2: raw request lines through a real http.Server: escapes,
 	// repeated/trailing slashes, "*", CONNECT, absolute-form, Host variants
-	pieces := []string{"a", "b", "/", "/", "//", "%2F", "%2f", "%61", "%2e%2e", "..", ".", "%", "%2", "%zz", "%00",
-		"?x=/b", "#f", "*", "+", "%25"}
+	pieces := []string{"a", "b", "a", "b", "/", "/", "/", "//", "%2F", "%2f", "%61", "%62", "%2e%2e", "..", ".", "%", "%2", "%zz", "%00",
+		"?x=/b", "#f", "*", "+", "%25", "a/b", "b/a"}
 	hostVals := []string{"shanhu.io", "Shanhu.IO", "shanhu.io:443", "shanhu.io.", "[::1]:8080", "[::1]", "h8liu.io", ""}
 	nEntry := nRouter / 5
 	for n := 0; n < nEntry; n++ {
@@ -1258,8 +1381,42 @@ func genCases(seed uint64, tier string) []Case {
 			default:
 				t = "/"
 			}
-			if t != "*" {
-				k := r.Intn(7)
+			if t != "*" && r.Bool() {
+				// a registered route of some router, written with other separators and escapes
+				var cand []string
+				for _, d := range defs {
+					for _, op := range d.Ops {
+						if op.P != "" {
+							cand = append(cand, op.P)
+						}
+					}
+				}
+				if len(cand) > 0 {
+					if !strings.HasSuffix(t, "/") {
+						t += "/"
+					}
+					var sg []string
+					for _, x := range strings.Split(pick(r, cand), "/") {
+						if x == "" {
+							continue
+						}
+						if r.Intn(4) == 0 {
+							x = strings.ReplaceAll(strings.ReplaceAll(x, "a", "%61"), "b", "%62")
+						}
+						sg = append(sg, x)
+					}
+					t += strings.Join(sg, pick(r, []string{"/", "/", "//", "%2F", "%2f"}))
+					switch r.Intn(5) {
+					case 0:
+						t += "/"
+					case 1:
+						t += "/" + pick(r, pieces)
+					case 2:
+						t += "?q=/x"
+					}
+				}
+			} else if t != "*" {
+				k := r.Intn(6)
 				if k > 0 && !strings.HasSuffix(t, "/") {
 					t += "/" // absolute-form: the authority ends here (its own syntax is net/url's business)
 				}
@@ -1385,6 +1542,7 @@ func main() {
 	mem := flag.Uint64("mem", 3<<30, "address-space limit of the child")
 	sets := flag.Bool("sets", false, "print the shared path sets and exit")
 	runStdin := flag.Bool("run", false, "run the cases given as JSON lines on stdin (replay / shrinking)")
+	conc := flag.Int("conc", 0, "serve the first N mux/seg/router/host cases concurrently (build with -race)")
 	flag.Parse()
 
 	out := hx.NewOut(os.Stdout)
@@ -1413,6 +1571,27 @@ func main() {
 		return
 	}
 	cs := genCases(*seed, *tier)
+	if *conc > 0 {
+		per := map[string]int{}
+		for i := range cs {
+			c := &cs[i]
+			k := c.Kind
+			if k != "mux" && k != "seg" && k != "router" && k != "host" {
+				continue
+			}
+			if c.Stream == "mux-small" || c.Stream == "mux-triples" || c.Stream == "seg-small" || c.Stream == "seg-triples" {
+				k = c.Stream
+			}
+			if per[k] >= *conc {
+				continue
+			}
+			per[k]++
+			resolve(c)
+			same := concCase(c)
+			out.Emit(map[string]interface{}{"i": c.I, "stream": "conc", "kind": c.Kind, "from": c.Stream, "same": same})
+		}
+		return
+	}
 	if *child {
 		hx.LimitMemory(*mem)
 		for i := *from; i < len(cs); i++ {
